@@ -96,6 +96,7 @@ package keeper
 //@       && Pledge[str(sp)].TotalShardPledged == old(Pledge[str(sp)].TotalShardPledged) && (has(PledgeDebt, str(sp)) <==> old(has(PledgeDebt, str(sp))))
 //@       && PledgeDebt[str(sp)] == old(PledgeDebt[str(sp)]) && (forall a addr, d string :: bal(a, d) == old(bal(a, d)))
 //@   ensures [C07.release.debtwf] has(PledgeDebt, str(sp)) ==> (shard != nil || old(has(PledgeDebt, str(sp)))) && PledgeDebt[str(sp)].Sp == str(sp) && PledgeDebt[str(sp)].Debt.Amount >= 0
+//@   ensures [C07.release.errpledge] err != nil ==> Pledge[str(sp)] == old(Pledge[str(sp)]) && (has(Pledge, str(sp)) <==> old(has(Pledge, str(sp))))
 //@   ensures [C08.release.settles] shard == nil && old(has(Pledge, str(sp))) && old(has(Pool)) ==> err == nil
 //@   ensures [C07.release.errnil] err != nil && shard == nil ==> Pledge[str(sp)] == old(Pledge[str(sp)]) && (has(Pledge, str(sp)) <==> old(has(Pledge, str(sp))))
 //@       && (has(PledgeDebt, str(sp)) <==> old(has(PledgeDebt, str(sp)))) && PledgeDebt[str(sp)] == old(PledgeDebt[str(sp)]) && (forall a addr, d string :: bal(a, d) == old(bal(a, d)))
